@@ -119,6 +119,24 @@ def OPTIONS():
         return None
     add("stdout", [(["-t"], []), (["--stdout"], []), ([], ["stdout"])], p_stdout)
 
+    def p_stdout_outfile(P):
+        # manual, --outfile: "If you combine --outfile with the --stdout option, then the scanner is written to stdout but its
+        # #line directives refer to the file FILE" (round-4 seed C19-r4m3)
+        e = p_stdout(P)
+        if e:
+            return e
+        if "X.c" in P.files:
+            return "X.c written although the scanner was to go to standard output"
+        import re as _re
+        names = set(_re.findall(rb'(?m)^#line \d+ "([^"]*)"', P.stdout))
+        if b"X.c" not in names:
+            return "no #line directive of the scanner on standard output refers to the --outfile name (names: %s)" % sorted(names)
+        if b"<stdout>" in names:
+            return "#line directives name <stdout> although --outfile was given"
+        return None
+    add("stdout+outfile", [(["-t", "-oX.c"], []), (["--stdout", "--outfile=X.c"], []), ([], ["stdout", 'outfile="X.c"']), (["-t"], ['outfile="X.c"']),
+                           (["-oX.c"], ["stdout"])], p_stdout_outfile)
+
     def p_header(P):
         e = gen_ok(P)
         if e:
@@ -143,6 +161,48 @@ def OPTIONS():
             return "the scanner still embeds yy_accept although --tables-file was given"
         return None
     add("tables-file", [(["--tables-file=T.tbl"], []), ([], ['tables-file="T.tbl"'])], p_tablesfile)
+
+    TMAIN = """
+#include <stdio.h>
+int main(int argc, char **argv) {
+    FILE *fp = fopen(argv[1], "rb"); int t;
+    if (!fp) return 3;
+    if (yytables_fload(fp) != 0) { puts("LOADFAIL"); return 4; }
+    fclose(fp);
+    yy_scan_string("abc de\\n");
+    while ((t = yylex()) > 0) printf("%d ", t);
+    printf("end\\n");
+    yylex_destroy();
+    yytables_destroy();
+    return 0;
+}
+"""
+
+    def p_tables_load(P):
+        # manual, "Serialized Tables": the scanner reads its tables with yytables_fload(); several scanners' tables may be concatenated
+        # in one file ("cat lex.a.tables lex.b.tables > all.tables") and each scanner finds its own set by name (seeds C19-r4m2, C02-r4m3)
+        e = p_tablesfile(P)
+        if e:
+            return e
+        ok, err = P.compile()
+        if not ok:
+            return "scanner does not compile: " + err[-300:]
+        for k, pct in enumerate(('prefix="zz"', 'prefix="zz" yylineno', 'prefix="aa" reentrant')):
+            open(os.path.join(P.wd, "q%d.l" % k), "w").write('%%option noyywrap %s tables-file="Z%d.tbl"\n%%%%\nx+ return 7;\nxyz/q return 8;\n.|\\n ;\n%%%%\n' % (pct, k))
+            q = subprocess.run([P.flex.exe, "-o", "q%d.c" % k, "q%d.l" % k], cwd=P.wd, env=H.ENV, stdin=subprocess.DEVNULL, stdout=subprocess.PIPE, stderr=subprocess.PIPE, timeout=120)
+            if q.returncode != 0:
+                return "flex failed on the second scanner: " + q.stderr.decode("latin-1")[-200:]
+        for order in (["T.tbl"], ["T.tbl", "Z0.tbl"], ["Z0.tbl", "T.tbl"], ["Z1.tbl", "T.tbl"], ["Z2.tbl", "T.tbl"], ["Z0.tbl", "Z1.tbl", "T.tbl", "Z2.tbl"],
+                      ["Z1.tbl", "Z1.tbl", "Z0.tbl", "T.tbl"]):
+            with open(os.path.join(P.wd, "all.tbl"), "wb") as f:
+                for n in order:
+                    f.write(open(os.path.join(P.wd, n), "rb").read())
+            rc, out, err = P.run(args=["all.tbl"])
+            if rc != 0 or out.strip() != "1 4 2 3 end":
+                return "with the tables file made of %s the scanner printed %r rc=%s (expected '1 4 2 3 end') %s" % (order, out.strip(), rc, err[-150:])
+        return None
+    add("tables-file:load", [(["--tables-file=T.tbl"], []), ([], ['tables-file="T.tbl"']), (["--tables-file=T.tbl"], ["yylineno"]),
+                             (["--tables-file=T.tbl", "-Cf"], []), (["--tables-file=T.tbl", "-CFe"], ["yylineno"])], p_tables_load, sect3=TMAIN)
 
     def p_backup(P):
         e = gen_ok(P)
